@@ -426,7 +426,7 @@ func drawMetadata(rt *rapid.T) map[string]string {
 
 func TestC01_Bound(t *testing.T) {
 	rec := stats.New(t, "C01", rule)
-	rp.Check(t, 24000, 600000, func(rt *rapid.T) {
+	rp.Check(t, 24000, 2000000, func(rt *rapid.T) {
 		c := &Case{Format: rp.Pick(rt, "format", envb.MTJWS, envb.MTCOSE),
 			KeySpec:  rp.Pick(rt, "keySpec", "EC-256", "EC-256", "EC-256", "EC-384", "EC-384", "EC-521", "RSA-2048", "RSA-3072"),
 			Level:    kit.DrawLevel(rt),
